@@ -15,14 +15,14 @@ def jobs(tier):
         out.append(dict(id='e2.%s.%s' % (module.split('.')[-1], func), engine='E2', module=module, func=func, params={'engine': 'CrossHair', 'per_condition_timeout_s': budget},
                         tags=tags.split(','), functions=functions, budget_s=budget, weight=50, twin=False, **extra))
     for f in ('rt_str_pool', 'rt_graph', 'rt_str', 'rt_str_file', 'rt_bytes', 'rt_int', 'rt_stream', 'rt_float', 'rt_float_special', 'rt_misc'):
-        add('obligations.ch.disk_rt', f, 'C01,C08' if f in ('rt_str', 'rt_str_file', 'rt_bytes', 'rt_stream') else ('C01,C03' if f in ('rt_misc', 'rt_float_special') else 'C01'), C01_F)
+        add('obligations.ch.disk_rt', f, ('C01,C08,C17' if f in ('rt_str', 'rt_str_file') else 'C01,C08') if f in ('rt_str', 'rt_str_file', 'rt_bytes', 'rt_stream') else ('C01,C03' if f in ('rt_misc', 'rt_float_special') else 'C01'), C01_F)
     add('obligations.ch.disk_rt', 'rt_json', 'C01,C02', C01_F + ['core.JSONDisk.put', 'core.JSONDisk.get', 'core.JSONDisk.store', 'core.JSONDisk.fetch'])
     add('obligations.ch.disk_rt', 'json_keys_distinct', 'C02', ['core.JSONDisk.put'])
     for f in ('key_rt_int', 'key_rt_str', 'key_rt_bytes', 'key_rt_boundary', 'key_put_float', 'alias_int_int', 'alias_int_float_boundary',
               'alias_str_bytes', 'alias_str_str', 'alias_bytes_bytes', 'alias_native_vs_pickled', 'alias_bytes_equal_to_pickle'):
-        add('obligations.ch.keys', f, 'C02', C02_F)
+        add('obligations.ch.keys', f, 'C02,C12' if f in ('key_rt_int', 'key_rt_boundary', 'key_put_float') else 'C02', C02_F)
     for f in ('route_equal_int_float', 'route_pure_str', 'route_pure_bytes', 'route_pure_int'):
-        add('obligations.ch.keys', f, 'C13', C13_F)
+        add('obligations.ch.keys', f, 'C13,C15' if f in ('route_pure_str', 'route_pure_bytes') else 'C13', C13_F)
     for f in ('shape_2_0__2_0', 'shape_1_0__2_0', 'shape_3_0__1_1', 'shape_3_0__1_1_str', 'shape_1_1__1_1', 'shape_0_2__0_2_order',
               'shape_typed_int_float', 'shape_ignore', 'base_distinct'):
         add('obligations.ch.memo', f, 'C16', C16_F)
